@@ -746,8 +746,12 @@ class _Simu(_IObserver, _params.Updatable, ABC):
             center += contrib
 
         if not isinstance(self.rho, np.ndarray):
-            diff = np.linalg.norm(center - self.mesh.center) / np.linalg.norm(center)
-            assert diff <= 1e-12
+            # uniform density: the centre of mass is the centroid of the mesh (compared on the scale
+            # of the mesh, a mesh may be centred at the origin)
+            scale = max(
+                np.linalg.norm(center), np.linalg.norm(np.ptp(self.mesh.coord, axis=0))
+            )
+            assert np.linalg.norm(center - self.mesh.center) <= 1e-12 * scale
 
         return center
 
